@@ -138,6 +138,13 @@ func (tc *tokenConverter) handleCompoundToken(t models.TokenWithSpan) []token.To
 		}
 	}
 
+	// The spellings below are what the tokenizer hands over as a generic keyword
+	// token. Text alone does not make a keyword: the string literal 'order by'
+	// and the quoted identifier "left join" have the same text.
+	if t.Token.Type != models.TokenTypeKeyword {
+		return nil
+	}
+
 	switch strings.ToUpper(t.Token.Value) {
 	case "INNER JOIN":
 		return []token.Token{
